@@ -311,6 +311,8 @@ class SCF(BaseObject):
 
         # Start the minimization procedures
         self.clear()
+        # The convergence has to be determined by this run, not by a previous one
+        self.is_converged = False
         Etots = []
         for imin in self.opt:
             # Call the minimizer
